@@ -38,6 +38,10 @@ fn main() {
         out.push_str(&format!("pgid {}\n", libc::getpgid(0)));
         out.push_str(&format!("uid {}\n", libc::getuid()));
         out.push_str(&format!("gid {}\n", libc::getgid()));
+        let (mut r, mut e, mut sv) = (0, 0, 0);
+        if libc::getresuid(&mut r, &mut e, &mut sv) == 0 {
+            out.push_str(&format!("euid {e}\nsuid {sv}\n"));
+        }
     }
     for fd in 0..3 {
         let mut st: libc::stat = unsafe { std::mem::zeroed() };
